@@ -419,7 +419,7 @@ template <typename C> struct Performer<C, CF_GUARD> {
 
 template <int F, typename C>
 void run_hook(C& c, int method, int cls, int inj, const void* self,
-			  int ev_type, uint64_t ev_value, const void* ev_addr, int tmpl_ok)
+			  int ev_type, uint64_t ev_value, const void* ev_addr, int tmpl_ok, uint32_t hits = 0)
 {
 	Last last; last.kind = A_NONE; last.result = 0; last.walk_count = 0;
 	SutAction act;
@@ -428,7 +428,7 @@ void run_hook(C& c, int method, int cls, int inj, const void* self,
 		v.method = static_cast<uint8_t>(method); v.cls = static_cast<uint8_t>(cls);
 		v.inj = static_cast<uint8_t>(inj);       v.flavour = F;
 		v.event_type = static_cast<uint8_t>(ev_type); v.event_value = ev_value; v.event_addr = ev_addr;
-		v.self = self;
+		v.self = self; v.self_hits = hits;
 		v.active_tmpl_ok = static_cast<uint8_t>(tmpl_ok);
 		Filler<C, F>::fill(v, c);
 		v.step = static_cast<uint8_t>(step);
@@ -442,24 +442,27 @@ void run_hook(C& c, int method, int cls, int inj, const void* self,
 
 // one set of callbacks, shared by state classes, injections and the root
 #define SUT_CALLBACKS(CLS, INJ, TMPL)                                                                                   \
-	void entryGuard(GuardControl& c) { run_hook<CF_GUARD>(c, M_ENTRY_GUARD, CLS, INJ, this, SUT_INVALID, 0, 0, TMPL(c)); }  \
-	void enter     (PlanControl&  c) { run_hook<CF_PLAN >(c, M_ENTER,       CLS, INJ, this, SUT_INVALID, 0, 0, TMPL(c)); }  \
-	void reenter   (PlanControl&  c) { run_hook<CF_PLAN >(c, M_REENTER,     CLS, INJ, this, SUT_INVALID, 0, 0, TMPL(c)); }  \
-	void preUpdate (FullControl&  c) { run_hook<CF_FULL >(c, M_PRE_UPDATE,  CLS, INJ, this, SUT_INVALID, 0, 0, TMPL(c)); }  \
-	void update    (FullControl&  c) { run_hook<CF_FULL >(c, M_UPDATE,      CLS, INJ, this, SUT_INVALID, 0, 0, TMPL(c)); }  \
-	void postUpdate(FullControl&  c) { run_hook<CF_FULL >(c, M_POST_UPDATE, CLS, INJ, this, SUT_INVALID, 0, 0, TMPL(c)); }  \
-	template <typename E> void preReact (const E& e, FullControl& c) { run_hook<CF_FULL>(c, M_PRE_REACT,  CLS, INJ, this, EvId<E>::ID, e.v, &e, TMPL(c)); } \
-	template <typename E> void react    (const E& e, FullControl& c) { run_hook<CF_FULL>(c, M_REACT,      CLS, INJ, this, EvId<E>::ID, e.v, &e, TMPL(c)); } \
-	template <typename E> void postReact(const E& e, FullControl& c) { run_hook<CF_FULL>(c, M_POST_REACT, CLS, INJ, this, EvId<E>::ID, e.v, &e, TMPL(c)); } \
-	template <typename E> void query(E& e, ConstControl& c) const    { run_hook<CF_CONST>(c, M_QUERY,     CLS, INJ, this, EvId<E>::ID, e.v, &e, TMPL(c)); } \
-	void exitGuard (GuardControl& c) { run_hook<CF_GUARD>(c, M_EXIT_GUARD,  CLS, INJ, this, SUT_INVALID, 0, 0, TMPL(c)); }  \
-	void exit      (PlanControl&  c) { run_hook<CF_PLAN >(c, M_EXIT,        CLS, INJ, this, SUT_INVALID, 0, 0, TMPL(c)); }
+	mutable uint32_t hits_ = 0;   /* user data living in the state object: must be copied with the machine */      \
+	void entryGuard(GuardControl& c) { run_hook<CF_GUARD>(c, M_ENTRY_GUARD, CLS, INJ, this, SUT_INVALID, 0, 0, TMPL(c), ++hits_); }  \
+	void enter     (PlanControl&  c) { run_hook<CF_PLAN >(c, M_ENTER,       CLS, INJ, this, SUT_INVALID, 0, 0, TMPL(c), ++hits_); }  \
+	void reenter   (PlanControl&  c) { run_hook<CF_PLAN >(c, M_REENTER,     CLS, INJ, this, SUT_INVALID, 0, 0, TMPL(c), ++hits_); }  \
+	void preUpdate (FullControl&  c) { run_hook<CF_FULL >(c, M_PRE_UPDATE,  CLS, INJ, this, SUT_INVALID, 0, 0, TMPL(c), ++hits_); }  \
+	void update    (FullControl&  c) { run_hook<CF_FULL >(c, M_UPDATE,      CLS, INJ, this, SUT_INVALID, 0, 0, TMPL(c), ++hits_); }  \
+	void postUpdate(FullControl&  c) { run_hook<CF_FULL >(c, M_POST_UPDATE, CLS, INJ, this, SUT_INVALID, 0, 0, TMPL(c), ++hits_); }  \
+	template <typename E> void preReact (const E& e, FullControl& c) { run_hook<CF_FULL>(c, M_PRE_REACT,  CLS, INJ, this, EvId<E>::ID, e.v, &e, TMPL(c), ++hits_); } \
+	template <typename E> void react    (const E& e, FullControl& c) { run_hook<CF_FULL>(c, M_REACT,      CLS, INJ, this, EvId<E>::ID, e.v, &e, TMPL(c), ++hits_); } \
+	template <typename E> void postReact(const E& e, FullControl& c) { run_hook<CF_FULL>(c, M_POST_REACT, CLS, INJ, this, EvId<E>::ID, e.v, &e, TMPL(c), ++hits_); } \
+	template <typename E> void query(E& e, ConstControl& c) const    { run_hook<CF_CONST>(c, M_QUERY,     CLS, INJ, this, EvId<E>::ID, e.v, &e, TMPL(c), ++hits_); } \
+	void exitGuard (GuardControl& c) { run_hook<CF_GUARD>(c, M_EXIT_GUARD,  CLS, INJ, this, SUT_INVALID, 0, 0, TMPL(c), ++hits_); }  \
+	void exit      (PlanControl&  c) { run_hook<CF_PLAN >(c, M_EXIT,        CLS, INJ, this, SUT_INVALID, 0, 0, TMPL(c), ++hits_); }
 
 #define SUT_PLAN_CALLBACKS(CLS, INJ, TMPL)                                                                              \
-	void planSucceeded(FullControl& c) { run_hook<CF_FULL>(c, M_PLAN_SUCCEEDED, CLS, INJ, this, SUT_INVALID, 0, 0, TMPL(c)); } \
-	void planFailed   (FullControl& c) { run_hook<CF_FULL>(c, M_PLAN_FAILED,    CLS, INJ, this, SUT_INVALID, 0, 0, TMPL(c)); }
+	void planSucceeded(FullControl& c) { run_hook<CF_FULL>(c, M_PLAN_SUCCEEDED, CLS, INJ, this, SUT_INVALID, 0, 0, TMPL(c), ++hits_); } \
+	void planFailed   (FullControl& c) { run_hook<CF_FULL>(c, M_PLAN_FAILED,    CLS, INJ, this, SUT_INVALID, 0, 0, TMPL(c), ++hits_); }
 
 #define TMPL_NONE(c) 1
+// the typed form isActive<T>() must agree with isActive(id) -- for the state itself, a neighbour, the first and the last state
+#define TMPL_ROOT(c) ((c.template isActive<St<0> >() == c.isActive(static_cast<ffsm2::StateID>(0)) && c.template isActive<St<SUT_N - 1> >() == c.isActive(static_cast<ffsm2::StateID>(SUT_N - 1))) ? 1 : 0)
 
 //------------------------------------------------------------------------------------------------
 // state classes
@@ -471,7 +474,7 @@ struct Inj : FSM::State {
 
 template <unsigned I, int K> struct StBase;
 
-#define TMPL_STATE(c) (c.template isActive<St<I> >() == c.isActive(static_cast<ffsm2::StateID>(I)) ? 1 : 0)
+#define TMPL_STATE(c) ((c.template isActive<St<I> >() == c.isActive(static_cast<ffsm2::StateID>(I)) && c.template isActive<St<(I + 1) % SUT_N> >() == c.isActive(static_cast<ffsm2::StateID>((I + 1) % SUT_N)) && c.template isActive<St<SUT_N - 1> >() == c.isActive(static_cast<ffsm2::StateID>(SUT_N - 1))) ? 1 : 0)
 
 template <unsigned I> struct StBase<I, K_FULL> : FSM::State {
 	SUT_CALLBACKS(I, 0, TMPL_STATE)
@@ -493,40 +496,45 @@ template <unsigned I> struct StBase<I, K_INJ3> : FSM::StateT<Inj<I, 1>, Inj<I, 2
 	SUT_CALLBACKS(I, 0, TMPL_STATE)
 };
 template <unsigned I> struct StBase<I, K_PARTIAL> : FSM::State {
-	void entryGuard(GuardControl& c) { run_hook<CF_GUARD>(c, M_ENTRY_GUARD, I, 0, this, SUT_INVALID, 0, 0, TMPL_STATE(c)); }
-	void enter     (PlanControl&  c) { run_hook<CF_PLAN >(c, M_ENTER,       I, 0, this, SUT_INVALID, 0, 0, TMPL_STATE(c)); }
-	void update    (FullControl&  c) { run_hook<CF_FULL >(c, M_UPDATE,      I, 0, this, SUT_INVALID, 0, 0, TMPL_STATE(c)); }
-	template <typename E> void postReact(const E& e, FullControl& c) { run_hook<CF_FULL>(c, M_POST_REACT, I, 0, this, EvId<E>::ID, e.v, &e, TMPL_STATE(c)); }
-	void exit      (PlanControl&  c) { run_hook<CF_PLAN >(c, M_EXIT,        I, 0, this, SUT_INVALID, 0, 0, TMPL_STATE(c)); }
+	mutable uint32_t hits_ = 0;
+	void entryGuard(GuardControl& c) { run_hook<CF_GUARD>(c, M_ENTRY_GUARD, I, 0, this, SUT_INVALID, 0, 0, TMPL_STATE(c), ++hits_); }
+	void enter     (PlanControl&  c) { run_hook<CF_PLAN >(c, M_ENTER,       I, 0, this, SUT_INVALID, 0, 0, TMPL_STATE(c), ++hits_); }
+	void update    (FullControl&  c) { run_hook<CF_FULL >(c, M_UPDATE,      I, 0, this, SUT_INVALID, 0, 0, TMPL_STATE(c), ++hits_); }
+	template <typename E> void postReact(const E& e, FullControl& c) { run_hook<CF_FULL>(c, M_POST_REACT, I, 0, this, EvId<E>::ID, e.v, &e, TMPL_STATE(c), ++hits_); }
+	void exit      (PlanControl&  c) { run_hook<CF_PLAN >(c, M_EXIT,        I, 0, this, SUT_INVALID, 0, 0, TMPL_STATE(c), ++hits_); }
 };
+
+// one injection, and a state class that defines nothing itself: every callback must reach the injection exactly once
+template <unsigned I> struct StBase<I, K_INJ1N> : FSM::StateT<Inj<I, 1> > {};
 
 template <unsigned I> struct St : StBase<I, SUT_KIND_OF(I)> {};
 
 #if SUT_ROOT_KIND == 0
 struct R : FSM::State {
-	SUT_CALLBACKS(SUT_INVALID, 0, TMPL_NONE)
+	SUT_CALLBACKS(SUT_INVALID, 0, TMPL_ROOT)
 #if SF_PLANS
-	SUT_PLAN_CALLBACKS(SUT_INVALID, 0, TMPL_NONE)
+	SUT_PLAN_CALLBACKS(SUT_INVALID, 0, TMPL_ROOT)
 #endif
 };
 #elif SUT_ROOT_KIND == 1
 struct R : FSM::State {};
 #elif SUT_ROOT_KIND == 2
 struct R : FSM::StateT<Inj<SUT_INVALID, 1> > {
-	SUT_CALLBACKS(SUT_INVALID, 0, TMPL_NONE)
+	SUT_CALLBACKS(SUT_INVALID, 0, TMPL_ROOT)
 #if SF_PLANS
-	SUT_PLAN_CALLBACKS(SUT_INVALID, 0, TMPL_NONE)
+	SUT_PLAN_CALLBACKS(SUT_INVALID, 0, TMPL_ROOT)
 #endif
 };
 #elif SUT_ROOT_KIND == 5
 struct R : FSM::State {
-	void entryGuard(GuardControl& c) { run_hook<CF_GUARD>(c, M_ENTRY_GUARD, SUT_INVALID, 0, this, SUT_INVALID, 0, 0, 1); }
-	void enter     (PlanControl&  c) { run_hook<CF_PLAN >(c, M_ENTER,       SUT_INVALID, 0, this, SUT_INVALID, 0, 0, 1); }
-	void update    (FullControl&  c) { run_hook<CF_FULL >(c, M_UPDATE,      SUT_INVALID, 0, this, SUT_INVALID, 0, 0, 1); }
-	template <typename E> void postReact(const E& e, FullControl& c) { run_hook<CF_FULL>(c, M_POST_REACT, SUT_INVALID, 0, this, EvId<E>::ID, e.v, &e, 1); }
-	void exit      (PlanControl&  c) { run_hook<CF_PLAN >(c, M_EXIT,        SUT_INVALID, 0, this, SUT_INVALID, 0, 0, 1); }
+	mutable uint32_t hits_ = 0;
+	void entryGuard(GuardControl& c) { run_hook<CF_GUARD>(c, M_ENTRY_GUARD, SUT_INVALID, 0, this, SUT_INVALID, 0, 0, TMPL_ROOT(c), ++hits_); }
+	void enter     (PlanControl&  c) { run_hook<CF_PLAN >(c, M_ENTER,       SUT_INVALID, 0, this, SUT_INVALID, 0, 0, TMPL_ROOT(c), ++hits_); }
+	void update    (FullControl&  c) { run_hook<CF_FULL >(c, M_UPDATE,      SUT_INVALID, 0, this, SUT_INVALID, 0, 0, TMPL_ROOT(c), ++hits_); }
+	template <typename E> void postReact(const E& e, FullControl& c) { run_hook<CF_FULL>(c, M_POST_REACT, SUT_INVALID, 0, this, EvId<E>::ID, e.v, &e, TMPL_ROOT(c), ++hits_); }
+	void exit      (PlanControl&  c) { run_hook<CF_PLAN >(c, M_EXIT,        SUT_INVALID, 0, this, SUT_INVALID, 0, 0, TMPL_ROOT(c), ++hits_); }
 #if SF_PLANS
-	void planFailed(FullControl&  c) { run_hook<CF_FULL >(c, M_PLAN_FAILED, SUT_INVALID, 0, this, SUT_INVALID, 0, 0, 1); }
+	void planFailed(FullControl&  c) { run_hook<CF_FULL >(c, M_PLAN_FAILED, SUT_INVALID, 0, this, SUT_INVALID, 0, 0, TMPL_ROOT(c), ++hits_); }
 #endif
 };
 #endif
@@ -586,7 +594,7 @@ bool g_info_ready = false;
 
 void set_defines(uint8_t* row, int kind, bool root) {
 	memset(row, 0, M_COUNT);
-	if (kind == K_FULL || kind == K_INJ1 || kind == K_INJ2 || kind == K_INJ3) {
+	if (kind == K_FULL || kind == K_INJ1 || kind == K_INJ2 || kind == K_INJ3 || kind == K_INJ1N) {
 		for (int m = M_ENTRY_GUARD; m <= M_EXIT; ++m) row[m] = 1;
 		if (root && SF_PLANS) { row[M_PLAN_SUCCEEDED] = 1; row[M_PLAN_FAILED] = 1; }
 	} else if (kind == K_PARTIAL) {
@@ -684,6 +692,13 @@ void* sut_construct(void* mem, int ctx_slot, uint64_t tag, int with_logger) {
 }
 
 void* sut_copy(void* mem, const void* src) { return new (mem) Inst(*CI_(src)); }
+#if SUT_CTX_KIND != 2
+void* sut_move(void* mem, void* src) { return new (mem) Inst(static_cast<Inst&&>(*I_(src))); }
+#else
+// a machine with a reference context cannot be move-constructed at all: CoreT's move constructor initialises
+// `context{move(other.context)}`, which does not bind an lvalue reference (compile error) -- copy instead
+void* sut_move(void* mem, void* src) { return new (mem) Inst(*CI_(src)); }
+#endif
 void  sut_destroy(void* inst) { I_(inst)->~Inst(); }
 
 #if SUT_MANUAL
